@@ -431,12 +431,89 @@ func init() {
 		}})
 }
 
+// genC14restart: wrappers must be installed for everything the broker does, also for sessions it restores from a
+// durable store at start-up: a persistent session with a small queue is left offline, the broker is restarted on the
+// same (redis) store, and messages that overflow the restored session's queue must reach every OnMsgDropped wrapper.
+func genC14restart(rng *rand.Rand, p *sim.Plan, order []string) *sim.Plan {
+	var exp []string
+	for _, n := range order {
+		for _, h := range c14Hooks {
+			if chance(rng, 0.6) || h == "OnMsgDropped" && chance(rng, 0.8) {
+				exp = append(exp, n+"/"+h)
+			}
+		}
+	}
+	p.Params = map[string]string{"scenario": "restart", "decider": "", "expose": strings.Join(exp, ","), "order": strings.Join(order, ","),
+		"redis_lat_us": fmt.Sprint(pick(rng, []int{0, 30}))}
+	p.Broker.Persistence = "redis"
+	p.Broker.MaxQueued = 1 + rng.IntN(3)
+	p.Broker.MaxInflight = 1
+	p.Broker.SessionExpiryS = sim.Int(100000)
+	p.Clients = []sim.ClientSpec{{ID: "keeper", Ver: pick(rng, []byte{4, 5})}, {ID: "pub", Ver: pick(rng, []byte{4, 5})}}
+	keep := sim.Op{K: "connect", C: 0, Clean: false}
+	if p.Clients[0].Ver == 5 {
+		keep.ExpiryS = sim.U32(90000)
+	}
+	p.Phases = append(p.Phases,
+		sim.Phase{Ops: []sim.Op{keep, {K: "subscribe", C: 0, Subs: []mqttc.Sub{{Filter: "k/#", QoS: 1}}}}},
+		sim.Phase{Ops: []sim.Op{{K: "cut", C: 0}}},
+		sim.Phase{Ops: []sim.Op{{K: "api_stop", C: -1}}},
+		sim.Phase{Ops: []sim.Op{{K: "api_start", C: -1}}})
+	var pp sim.Phase
+	pp.Ops = append(pp.Ops, sim.Op{K: "connect", C: 1, Clean: true})
+	for k := 0; k < p.Broker.MaxQueued+1+rng.IntN(4); k++ {
+		pp.Ops = append(pp.Ops, sim.Op{K: "publish", C: 1, Topic: "k/x", QoS: 1, Payload: fmt.Sprintf("r%d", k)})
+	}
+	p.Phases = append(p.Phases, pp)
+	return p
+}
+
+func oracleC14restart(p *sim.Plan, out *sim.Outcome) []sim.Violation {
+	vs := genericOracle(p, out)
+	order := strings.Split(p.Params["order"], ",")
+	expose := map[string]bool{}
+	for _, e := range strings.Split(p.Params["expose"], ",") {
+		expose[e] = true
+	}
+	// second life of the broker = everything after the last plugin Load
+	start := 0
+	for i, r := range out.H.Recs {
+		if r.Kind == "hook" && r.Note == "plg" && r.Val.(c14Log).Hook == "Load" {
+			start = i
+		}
+	}
+	drops := 0 // OnMsgDropped events of the restored session, as seen by the innermost (base) hook
+	calls := map[string]int{}
+	for _, r := range out.H.Recs[start:] {
+		if r.Kind == "hook" && r.Note == "dropped" {
+			if d, ok := r.Val.(sim.DropInfo); ok && d.Client == "keeper" {
+				drops++
+			}
+		}
+		if r.Kind == "hook" && r.Note == "plg" {
+			if l := r.Val.(c14Log); l.Hook == "OnMsgDropped" && l.Phase == "enter" {
+				calls[l.Plugin]++
+			}
+		}
+	}
+	out.Probes["c14_restored_session_drops"] += drops
+	for _, n := range order {
+		if expose[n+"/OnMsgDropped"] && calls[n] != drops {
+			vs = append(vs, viol("C14", "installed", "restored-session-OnMsgDropped", "after a restart %d messages were dropped from the queue of the restored session \"keeper\" (seen by the broker's own OnMsgDropped hook), but the OnMsgDropped wrapper of plugin %s was called %d times", drops, n, calls[n]))
+		}
+	}
+	return vs
+}
+
 func genC14(rng *rand.Rand, tier string) *sim.Plan {
 	p := NewPlan("C14", rng.Uint64(), rng)
 	names := []string{"pa", "pb", "pc"}
 	rng.Shuffle(3, func(i, j int) { names[i], names[j] = names[j], names[i] })
 	order := names[:2+rng.IntN(2)]
 	p.Broker.PluginOrder = append([]string{}, order...)
+	if chance(rng, 0.12) {
+		return genC14restart(rng, p, order)
+	}
 	var exp []string
 	for _, n := range order {
 		for _, h := range c14Hooks {
@@ -516,6 +593,9 @@ func genC14(rng *rand.Rand, tier string) *sim.Plan {
 }
 
 func oracleC14(p *sim.Plan, out *sim.Outcome) []sim.Violation {
+	if p.Params["scenario"] == "restart" {
+		return oracleC14restart(p, out)
+	}
 	vs := genericOracle(p, out)
 	if errC14NotAuthorized.Code != codes.NotAuthorized || errC14BadUser.Code != codes.BadUserNameOrPassword || errC14Banned.Code != codes.Banned {
 		vs = append(vs, viol("C14", "enforced", "hook-error-modified", "the broker modified an error value returned by a hook (reason codes now 0x%02x 0x%02x 0x%02x): the plugin's shared error values decide differently from now on", errC14NotAuthorized.Code, errC14BadUser.Code, errC14Banned.Code))
